@@ -565,12 +565,14 @@ class DirectiveModel:
                 out.append(self.ident(w))
         return out
 
-    def run(self, cmd, macros, chain, cond=True, included_leaves_open=False):
+    def run(self, cmd, macros, chain, cond=True, included_leaves_open=False, include_depth=0):
         I = self.I
         eff = []
 
         def included(a):
-            eff.append(("included",))
+            fl_ = [x.get() if isinstance(x, I.Ref) else x for x in a]
+            fl_ = [x for x in fl_ if isinstance(x, I.Enum) and x.adt == "FileLoader"]
+            eff.append(("included", fl_[0].fields.get("include_depth") if fl_ else None))
             if included_leaves_open:
                 # the included file opens an #if and never closes it: the state is pushed onto whatever chain it was handed
                 for x in a:
@@ -589,7 +591,7 @@ class DirectiveModel:
         ch = I.Enum("ConditionChain", None, {"0": [I.Enum("ConditionState", s) for s in chain]})
         ms = list(macros)
         try:
-            r = ip.apply(self.pc, [[], I.Enum("FileLoader", None, {"source_manager": I.Opaque("sm")}), cmd, I.Enum("FileId", None, {"0": 0}), ms, ch])
+            r = ip.apply(self.pc, [[], I.Enum("FileLoader", None, {"source_manager": I.Opaque("sm"), "include_depth": include_depth}), cmd, I.Enum("FileId", None, {"0": 0}), ms, ch])
         except I.Unknown as e:
             return ("aborts" if "panicking" in str(e) else "unreadable", str(e)[:120])
         res = r.variant if isinstance(r, I.Enum) else repr(r)
